@@ -203,8 +203,17 @@ def setup(models=()):
     ch_getattr = reg.get(_real_getattr)
     ch_hasattr = reg.get(_real_hasattr)
 
+    try:
+        from crosshair.core import realize as _ch_realize
+    except Exception:  # pragma: no cover
+        _ch_realize = lambda x: x
+
     def setattr_model(obj, name, value):
         with NoTracing():
+            if isinstance(name, _AnySymbolicStr):
+                # CrossHair's own patch tests `type(name) is AnySymbolicStr`, which is never true
+                # for the concrete symbolic-string classes, and then fails with TypeError
+                name = _ch_realize(name)
             plain = _real_type(name) is str and not isinstance(obj, _SV)
         if plain:
             return _real_setattr(obj, name, value)
